@@ -390,6 +390,16 @@ C13rCl(r) ==
                    # Cardinality({i \in AllStepEvs(r, s) : Ev(r, i).pos = p /\ ~LookupFails(r, s, p)})
     THEN {"C13.cleanup_once"} ELSE {})
    \cup (IF Ran(r) /\ AnyCleanupRaised(r) /\ ~r.end.verdict THEN {"C13.cleanup_fails_run"} ELSE {})
+   \* a raising cleanup makes the element that owns its scope fail (scenario scopes not judged under autoretry: a later
+   \* attempt may pass)
+   \cup (IF Ran(r) /\ \E s \in Scens(r) : \E p \in DOMAIN StepsOf(r, s) : LET st == StepsOf(r, s)[p] IN
+             /\ st.cl_id # 0 /\ \E i \in Ix(r) : Ev(r, i).k = "cleanup" /\ Ev(r, i).cid = st.cl_id /\ Ev(r, i).raised
+             /\ LET owner == CASE st.cl_layer \in {"", "scenario"} -> (IF r.cfg.retry THEN 0 ELSE s)
+                                [] st.cl_layer = "rule" -> RuleOf(r, s)
+                                [] st.cl_layer = "feature" -> FeatOf(r, s)
+                                [] OTHER -> 0
+                IN owner # 0 /\ r.end.status[owner] \notin FailedOrError
+         THEN {"C13.cleanup_fails_element"} ELSE {})
 
 \* ======================================================================= C18 (capture), event part
 C18(r) ==
